@@ -192,8 +192,11 @@ fn free_cfg() -> Cfg {
 fn build(seed: u64, plan_ix: u64, steps_per_thread: usize) -> Vec<FThread> {
     let mut rng = Rng::from_seed(run_seed(seed, 0xF4EE_0000 + plan_ix));
     let cfg = free_cfg();
-    let shape = plan_ix % 3;
-    let rough = plan_ix >= 2;
+    let shape = plan_ix % 4;
+    let rough = plan_ix >= 4;
+    if shape == 3 {
+        return build_hammer(&mut rng, steps_per_thread);
+    }
     // cheap, mode-sensitive kinds (Miri is ~10^4 x slower than native)
     let kinds: [usize; 8] = [0, 2, 4, 10, 11, 12, 15, 19];
     let n = 3usize;
@@ -271,6 +274,51 @@ fn build(seed: u64, plan_ix: u64, steps_per_thread: usize) -> Vec<FThread> {
         }
     }
     lists
+}
+
+/// "Hammer" plan: one thread holds a custom mode and keeps reading it and
+/// rounding under it, while the two others — which never leave HalfEven —
+/// keep calling `set_default(RoundHalfEven)` redundantly, resp. toggle
+/// custom → HalfEven ("temporarily change and restore").  By the property
+/// none of that may ever be visible to the first thread.  Windows of a few
+/// instructions INSIDE `set_default` are only reachable this way (seeded
+/// change s26: a counter decremented and re-incremented by a redundant reset).
+fn build_hammer(rng: &mut Rng, steps_per_thread: usize) -> Vec<FThread> {
+    let cfg = free_cfg();
+    let kinds: [usize; 4] = [0, 2, 11, 19];
+    let custom = {
+        let m = rng.below(7) as u8;
+        if m >= HALF_EVEN { m + 1 } else { m }
+    };
+    let mut l0: Vec<FStep> = vec![FStep::Read, FStep::Set(custom), FStep::Spawn(1), FStep::Spawn(2), FStep::Barrier];
+    for _ in 0..steps_per_thread + 4 {
+        l0.push(FStep::Read);
+        let kind = *rng.pick(&kinds);
+        l0.push(FStep::Op(gen_op(rng, &cfg, kind, Class::Witness), Outcome::Unit));
+    }
+    l0.push(FStep::Read);
+    let mut l1: Vec<FStep> = vec![FStep::Read, FStep::Barrier];
+    for _ in 0..2 * steps_per_thread + 8 {
+        l1.push(FStep::Set(HALF_EVEN)); // redundant: the thread never left HalfEven
+    }
+    l1.push(FStep::Read);
+    let mut l2: Vec<FStep> = vec![FStep::Read, FStep::Barrier];
+    for i in 0..steps_per_thread + 4 {
+        if i % 3 == 2 {
+            // change and restore
+            let m = (custom + 1 + (i as u8 % 6)) % 8;
+            l2.push(FStep::Set(if m == HALF_EVEN { (m + 1) % 8 } else { m }));
+            l2.push(FStep::Read);
+        }
+        l2.push(FStep::Set(HALF_EVEN));
+    }
+    l2.push(FStep::Read);
+    let _ = START.set(std::sync::Barrier::new(3));
+    vec![
+        FThread { steps: l0, probe: false },
+        FThread { steps: l1, probe: false },
+        FThread { steps: l2, probe: false },
+    ]
 }
 
 /// Fill in the expected outcome of every op: sequentially, on this (fresh)
